@@ -620,6 +620,18 @@ def Entry.matches (e : Entry) (k : Nat) : Bool := k &&& e.mask == e.key
 /-- first-match lookup in table order (the router takes the lowest matching row) -/
 def lookup (T : List Entry) (k : Nat) : Option Entry := T.find? (fun e => e.matches k)
 
+/-- a packet key matches a used router row -/
+def Ent.matches (x : Ent) (k : Nat) : Bool := k &&& x.mask == x.key
+
+def rowHit (rows : Nat → Row) (k j : Nat) : Option Ent :=
+  match (rows j).ent with
+  | some x => if x.matches k then some x else none
+  | none => none
+
+/-- the router's decision for packet key `k`: the matching used row of lowest index -/
+def routerLookup (rows : Nat → Row) (k : Nat) : Option Ent :=
+  (List.range rtrEntries).findSome? (rowHit rows k)
+
 /-! ### conversion to and from C04's entries (`BitVec 32` key/mask, route and sources as bit sets) -/
 
 /-- bit of a source in C04's `sources` word: a link/route `l` is bit `l`, `None` is bit 24 -/
